@@ -190,6 +190,9 @@ class Make:
                                    not see those inputs in this invocation (D1/D2)
       cf_trust_after_failed_touch  a failed command that rewrote its outputs is trusted if an older record is
                                    still valid (D8)
+      cf_dyndep_restat_late        a statement whose 'restat' comes from a dyndep file that is (re)produced in this
+                                   invocation is judged without it by the initial scan and stays wanted (D18, the
+                                   behaviour of a binary built without asserts)
     """
 
     def __init__(self):
@@ -222,7 +225,8 @@ class Make:
             return False, []
         return True, list(self.dfile[df])
 
-    def plan(self, g, files, targets, cf_dirty_ignores_discovered=False, cf_trust_after_failed_touch=False, assume_flip=()):
+    def plan(self, g, files, targets, cf_dirty_ignores_discovered=False, cf_trust_after_failed_touch=False, assume_flip=(),
+             cf_dyndep_restat_late=False):
         """-> dict(run=[keys in a valid order], error=None|str, why={key: reason}, order=[(a,b): a must finish before b])"""
         prod = producer_map(g)
         why = {}
@@ -236,6 +240,7 @@ class Make:
         disc_used = {}
         ignored = set()     # edges whose valid discovered inputs were ignored by the counterfactual switch
         trusted = set()     # edges trusted only because of cf_trust_after_failed_touch
+        late = set()        # edges dirty only because cf_dyndep_restat_late judged them without restat
 
         def mtime(n):
             if n in files:
@@ -270,6 +275,12 @@ class Make:
                     dirty, reason = True, 'input %s dirty' % i
             m = max([mtime(i) for i in ins_no if (i in files or i in node_mtime)] or [0])
             own, own_reason = self.own_dirty(g, e, files, m, cf_trust_after_failed_touch)
+            if (cf_dyndep_restat_late and not own and e.get('dd') and e.get('dd_restat') and not e.get('restat')
+                    and node_dirty.get(e['dd'])):
+                own, own_reason = self.own_dirty(g, e, files, m, cf_trust_after_failed_touch, no_restat=True)
+                if own:
+                    late.add(k)
+                    own_reason += ' (judged before its dyndep file added restat)'
             valid, disc = self.discovered(g, e, files)
             pre_dirty = dirty or own
             use_disc = valid and not (cf_dirty_ignores_discovered and pre_dirty)
@@ -319,7 +330,7 @@ class Make:
             visit(validations[i], None)
             i += 1
         if err[0]:
-            return dict(run=[], error=err[0], why=why, disc=disc_used, ignored=ignored, trusted=trusted)
+            return dict(run=[], error=err[0], why=why, disc=disc_used, ignored=ignored, trusted=trusted, late=late)
 
         # -- readiness walk as the plan does it: from the roots through edges that are not ready
         ready = {}
@@ -360,7 +371,7 @@ class Make:
                 missing.append((t, None))
             walk(t, None)
         if missing:
-            return dict(run=[], error="missing:%s" % missing[0][0], why=why, disc=disc_used, missing=missing, ignored=ignored, trusted=trusted)
+            return dict(run=[], error="missing:%s" % missing[0][0], why=why, disc=disc_used, missing=missing, ignored=ignored, trusted=trusted, late=late)
 
         # -- which dirty edges really run: own reason, or an input is actually rewritten by an edge that runs
         runs = []
@@ -397,9 +408,9 @@ class Make:
                 if is_restat(e) and o in files and k in assume_flip:
                     same = not same
                 rewritten[o] = not same
-        return dict(run=runs, error=None, why=why, disc=disc_used, reached=reached, ignored=ignored, trusted=trusted)
+        return dict(run=runs, error=None, why=why, disc=disc_used, reached=reached, ignored=ignored, trusted=trusted, late=late)
 
-    def own_dirty(self, g, e, files, newest_input, cf_trust=False):
+    def own_dirty(self, g, e, files, newest_input, cf_trust=False, no_restat=False):
         """dirt that comes from the statement's own outputs/records given the newest non-order-only input time"""
         if e['phony']:
             return False, None
@@ -410,7 +421,7 @@ class Make:
             if o not in files:
                 return True, 'output %s missing' % o
             r = self.rec.get(o)
-            if not (is_restat(e) and r) and files[o]['m'] < newest_input:
+            if not (is_restat(e) and not no_restat and r) and files[o]['m'] < newest_input:
                 return True, 'output %s older than input' % o
             if r is None:
                 if not e['generator']:
